@@ -83,6 +83,8 @@ type ContractSet struct {
 	Axioms []*Axiom
 	Census []*PkgCensus
 	Files  []string
+	GuardDecls [][2]string // pkg, "Type.mu: f1, f2"
+	ctxPkg     string
 }
 
 type PkgCensus struct {
@@ -206,8 +208,15 @@ func (cs *ContractSet) directive(cur **Contract, body, path string, ln int, pkgP
 		cs.ByKey[key] = c
 		*cur = c
 		return nil
+	case "package":
+		// type-resolution context for ghost functions and axioms of an extern spec file
+		cs.ctxPkg = rest
+		return nil
 	case "ghost":
 		// ghost func name(p T, q U) R [= expr]
+		if pkgPath == "" {
+			pkgPath = cs.ctxPkg
+		}
 		g, err := parseGhost(rest, pkgPath)
 		if err != nil {
 			return fail("%v", err)
@@ -223,8 +232,16 @@ func (cs *ContractSet) directive(cur **Contract, body, path string, ln int, pkgP
 		if err != nil {
 			return err
 		}
+		if pkgPath == "" {
+			pkgPath = cs.ctxPkg
+		}
 		cs.Axioms = append(cs.Axioms, &Axiom{Name: strings.TrimSpace(rest[:i]), Cl: cl, Pkg: pkgPath})
 		return nil
+	case "guarded":
+		if *cur == nil || true {
+			cs.GuardDecls = append(cs.GuardDecls, [2]string{pkgPath, rest})
+			return nil
+		}
 	case "census":
 		// census[Cxx] callee in f1, f2, ...
 		i := strings.Index(rest, " in ")
